@@ -159,7 +159,8 @@ Proof.
   - destruct (ref_rank d); [|discriminate]. injection Hs as <-. split; cbn [fst snd frames_ok]; auto.
   - destruct (ref_rank d); [|discriminate]. destruct (pop d fs t) as [fs' t'] eqn:Ep. injection Hs as <-.
     destruct (pop_ok _ _ _ _ _ Hf Ht Ep) as [Hf' Ht']. split; cbn [fst snd pfix]; auto.
-  - destruct (ref_rank d); [|discriminate]. destruct (pop d fs t) as [fs' t'] eqn:Ep. injection Hs as <-.
+  - destruct (ref_rank d); [|discriminate]. destruct (pop d fs t) as [fs' t'] eqn:Ep.
+    destruct (sep_blocked d fs'); [discriminate|]. injection Hs as <-.
     destruct (pop_ok _ _ _ _ _ Hf Ht Ep) as [Hf' Ht']. split; cbn [fst snd frames_ok]; auto.
   - injection Hs as <-. split; cbn [fst snd frames_ok]; auto.
   - destruct (close_group b fs t) as [[fs' t']|] eqn:Ec; [|discriminate]. injection Hs as <-.
